@@ -24,7 +24,7 @@ def evidence_table():
 
 
 def seeds_table():
-    out = ['| seed | change (all keep the 15 tests green) | needs | caught by |', '|---|---|---|---|']
+    out = ['| seed | change (all keep the 15 tests green) | needs | caught by | re-run on the final tree |', '|---|---|---|---|---|']
     for f in sorted(glob.glob(ROOT + '/seeded/*/meta.json')):
         m = json.load(open(f))
         det = m.get('detected_by', {})
@@ -38,7 +38,18 @@ def seeds_table():
             s = ' '.join(str(s).split()).replace('|', '\\|')
             return s if len(s) <= n else s[:n - 1] + '…'
 
-        out.append('| %s | %s | %s | %s |' % (m['name'], cut(m.get('summary', ''), 230), cut(m.get('needs', ''), 160), by))
+        ft = m.get('final_tree')
+        if not ft:
+            fin = 'not re-run'
+        elif not ft.get('applies', True):
+            fin = 'patch no longer applies (a later repair rewrote its lines)'
+        elif ft.get('caught'):
+            fin = 'caught'
+        elif ft.get('note'):
+            fin = 'not a defect any more: ' + cut(ft['note'], 200)
+        else:
+            fin = 'not caught'
+        out.append('| %s | %s | %s | %s | %s |' % (m['name'], cut(m.get('summary', ''), 230), cut(m.get('needs', ''), 160), by, fin))
     return '\n'.join(out)
 
 
